@@ -55,15 +55,26 @@ CHECKS = {
     },
     "C06": {
         "level": "exploration",
-        "quick": {"shards": 16, "rounds": 1, "checks": 100, "timeout": 900},
-        "thorough": {"shards": 16, "rounds": 4, "checks": 500, "timeout": 3000},
-        "assumptions": [],
+        "quick": {"shards": 16, "rounds": 1, "checks": 60, "timeout": 900},
+        "thorough": {"shards": 16, "rounds": 3, "checks": 150, "timeout": 3000},
+        "assumptions": [
+            "goroutine interleavings are sampled, not enumerated: each recorded execution of the real engine is checked; schedules are perturbed by a generated yield/sleep plan at the verifhook sites and cannot be replayed",
+            "a write that returned an error is modelled as having no effect; the only error path reachable without I/O faults is retry exhaustion on ErrWALRotating (unreachable since rotation runs under the engine lock)",
+            "the reads after close and reopen assume a clean Close after the background flush went idle; database directories live on tmpfs",
+        ],
     },
     "C07": {
         "level": "exploration", "race": True,
-        "quick": {"shards": 16, "rounds": 1, "checks": 100, "timeout": 900},
-        "thorough": {"shards": 16, "rounds": 4, "checks": 500, "timeout": 3000},
-        "assumptions": [],
+        # every case runs in its own child process (race build, 0.3-2 s each)
+        "quick": {"shards": 16, "rounds": 1, "checks": 24, "timeout": 900},
+        "thorough": {"shards": 16, "rounds": 4, "checks": 60, "timeout": 3000},
+        "shrinktime": "40s",
+        "assumptions": [
+            "a data race is decided per execution by the Go race detector (happens-before); goroutine schedules are perturbed by a generated yield plan, not enumerated",
+            "every call returns = returns within 30 s (case: 120 s), at least 1000x the normal latency on this machine",
+            "all callers are joined before Close; Close runs while the engine's own background goroutines may still be active",
+            "sstable.BlockCache and compaction.DefaultFileTracker are not reachable concurrently through the engine facade; they are exercised through component-level extras (shared sstable.Reader.Get, public file-tracker entry points of a second coordinator)",
+        ],
     },
     "C08": {
         "level": "exploration",
@@ -90,7 +101,7 @@ CHECKS = {
     "C11": {
         "level": "exploration",
         "quick": {"shards": 16, "rounds": 1, "checks": 600, "timeout": 900},
-        "thorough": {"shards": 16, "rounds": 5, "checks": 1000, "timeout": 3000},
+        "thorough": {"shards": 16, "rounds": 4, "checks": 1000, "timeout": 3000},
         "assumptions": [
             "keys are non-empty and at most 65535 bytes (16-bit key length of the block format); values up to 1.5 MiB",
             "corruption = exactly one byte of the finished file XORed with a non-zero mask; a non-terminating read is counted, not judged",
@@ -136,7 +147,7 @@ CHECKS = {
         "level": "exploration", "race": True,
         # three TestProp functions (table, pool, concurrent) x checks cases per process
         "quick": {"shards": 16, "rounds": 1, "checks": 600, "timeout": 900},
-        "thorough": {"shards": 16, "rounds": 8, "checks": 800, "timeout": 3000},
+        "thorough": {"shards": 16, "rounds": 6, "checks": 800, "timeout": 3000},
         "assumptions": [
             "single writer (the memtable's documented contract); SetImmutable is called by the writer between writes, as MemTablePool does under its lock",
             "goroutine interleavings are not controlled: the concurrent part checks recorded observations of real executions and cannot replay a schedule",
@@ -153,7 +164,7 @@ CHECKS = {
         "level": "exploration",
         "env": {"VERIF_OFF": "nonfinite_ratio"},
         "quick": {"shards": 16, "rounds": 1, "checks": 600, "timeout": 900},
-        "thorough": {"shards": 16, "rounds": 6, "checks": 1200, "timeout": 3000},
+        "thorough": {"shards": 16, "rounds": 6, "checks": 1000, "timeout": 3000},
         "exhaustive_subspace": "all truncation lengths (every strict prefix 0..len-1, plus the full length) of each generated stored manifest, at config.LoadConfigFromManifest and (engine sub-check, all_trunc cases) at engine.NewEngineFacade",
         "assumptions": [
             "validity is decided by an independent table transcribed from the error messages of config.Config.Validate; fields without a message are unconstrained",
